@@ -19,7 +19,7 @@ Definition replst_eqb (a b : replst) : bool :=
   end.
 
 Definition cres_eqb (a b : cres) : bool :=
-  match a, b with ResOk, ResOk | ResRefused, ResRefused => true | _, _ => false end.
+  match a, b with ResOk, ResOk | ResRefused, ResRefused | ResRaised, ResRaised => true | _, _ => false end.
 
 Definition snap_eqb (a b : snap) : bool :=
   cres_eqb (sn_res a) (sn_res b) && runst_eqb (sn_rs a) (sn_rs b) && replst_eqb (sn_ps a) (sn_ps b)
